@@ -2,6 +2,7 @@ import VtProofs.Versatiles
 import VtProofs.PMTiles
 import VtProofs.PMFind
 import VtProofs.Hilbert
+import VtProofs.VersatilesRead
 /-!
 # C16 — readers accept every container that is valid by the published format layouts
 
@@ -107,6 +108,22 @@ theorem versatiles_block_index_decodes (l : List Versatiles.BlockDef) (hok : ∀
 theorem versatiles_tile_index_decodes (l : List Range) (h : ∀ r ∈ l, r.off < 256 ^ 8 ∧ r.len < 256 ^ 4) :
     Versatiles.decTileIndex (Versatiles.encTileIndex l) = .ok l :=
   VtProofs.Versatiles.decTileIndex_enc l h
+
+/-! ## versatiles: completeness of the reader against the published layout -/
+
+/-- **C16 (versatiles)**: any file that is valid by the relational description of the v02 layout
+    (`VtProofs.VersatilesRead.ValidVersatiles`: header, optional metadata, brotli block index with one
+    33-byte record per block coordinate — sparse, in any order —, per block a brotli tile index with
+    `(col_max-col_min+1)·(row_max-row_min+1)` row-major 12-byte entries relative to the block offset —
+    partial blocks, shared offsets, gaps, empty entries allowed) for the tile map `m` is opened
+    without failure, declares the encoded format and compression, and EVERY lookup (`z ≤ 31`) returns
+    exactly `m`: the stored payload for stored tiles, `None` otherwise; never `Err`, never a panic. -/
+theorem versatiles_reader_complete {K : Inflate} {file : Bytes} {fmt : TileFormat} {comp : TComp}
+    {m : Nat × Nat × Nat → Option Bytes}
+    (v : VtProofs.VersatilesRead.ValidVersatiles K file fmt comp m) :
+    ∃ r, Versatiles.openReader K file = .ok r ∧ r.header.fmt = fmt ∧ r.header.comp = comp ∧
+      ∀ x y z, z ≤ 31 → Versatiles.getTile r x y z = .ok (m (x, y, z)) :=
+  VtProofs.VersatilesRead.versatiles_complete v
 
 /-! ## non-vacuity -/
 
